@@ -51,8 +51,11 @@ def run(c):
         raise Machinery("expected %d emitted programs, got %d" % (nprog, len(cases)))
     # sensitivity: each mutation of the loop must violate the invariant that states the clause it breaks
     small = dict(consts, MaxLen=3)
+    # (only the invariant / action property that states the broken clause is checked: which of several violated ones
+    #  TLC reports first is not deterministic)
     for mut, inv in list(MUTATIONS.items())[:1 if c.quick else None]:
-        c.mc("AuthStrategy", cfg_text(constants=dict(small, Mutation=mut), invariants=invs, properties=["CallsLegal"]),
+        c.mc("AuthStrategy", cfg_text(constants=dict(small, Mutation=mut), invariants=[inv] if inv != "CallsLegal" else [],
+                                      properties=["CallsLegal"] if inv == "CallsLegal" else []),
              expect=inv, name="mutation " + mut, workers=4)
 
     # ---- RP: spec -> code.  Every emitted program on the real class
@@ -87,8 +90,11 @@ def run(c):
         rec, (calls, status, result) = batch[tid - 1], expect[tid - 1]
         same = ([e["src"] for e in rec["events"]] == calls and rec["final"]["status"] == status
                 and rec["final"]["result"] == result)
-        if same == (tid in flagged):
-            raise Machinery("replay comparison and trace verdict disagree on %s" % describe(rec))
+        # TLC (the oracle) has the last word: only "equals what TLC emitted, yet flagged by TLC" is a harness inconsistency
+        if same and tid in flagged:
+            raise Machinery("TLC flags a trace that equals what TLC emitted: %s" % describe(rec))
+        if not same and tid not in flagged:
+            c.conformance("differs_from_emitted_unflagged", "differs from the emitted case in a way no clause covers: " + describe(rec))
     order = sorted(res["VERDICT"], key=lambda row: (len(batch[row[1] - 1]["prog"]), row[1]))   # shortest program first
     c.verdicts(order, lambda tid, clause, row: (
         clause, "%s fails for %s%s" % (clause, describe(batch[tid - 1]),
